@@ -446,7 +446,8 @@ class C05Pipe(Prop):
 
 
 RELAY_C05 = ['forwarded_at_most_once', 'exactly_one_place', 'no_forward_after_final', 'register_relays_all',
-             'unregister_fails_backlog', 'seen_and_workers_scheduled_here', 'no_wait_for_registered', 'linearizable']
+             'unregister_fails_backlog', 'seen_and_workers_scheduled_here', 'no_wait_for_registered',
+             'no_wait_for_gone_master', 'linearizable']
 RELAY_VO = ['Relay/Oracle.vo', 'Relay/Proofs.vo', 'Relay/History.vo', 'Relay/Frame.vo', 'Relay/OracleProofs.vo']
 
 
